@@ -89,6 +89,7 @@ pub mod ev {
     pub const USER: u8 = 7;
     pub const ADVANCE: u8 = 8;
     pub const RELEASE: u8 = 9;
+    pub const TRY: u8 = 10; // arg = kind<<32 | success<<31 | resource
 }
 
 struct Th {
@@ -761,6 +762,30 @@ pub(crate) fn new_cv_id(w: &Arc<World>) -> usize {
     let mut g = w.lock();
     g.n_condvars += 1;
     g.n_condvars - 1
+}
+
+/// Non-blocking acquisition for `try_lock`: granted only if free right now.
+pub(crate) fn try_acquire_mutex(w: &Arc<World>, me: Tid, id: usize) -> bool {
+    let mut g = w.lock();
+    let free = g.mutex_owner[id].is_none();
+    if free {
+        g.mutex_owner[id] = Some(me);
+    }
+    g.log(me, ev::TRY, (2 << 32) | ((free as u64) << 31) | id as u64);
+    free
+}
+pub(crate) fn try_acquire_rw(w: &Arc<World>, me: Tid, id: usize, write: bool) -> bool {
+    let mut g = w.lock();
+    let free = if write { g.rw[id].writer.is_none() && g.rw[id].readers.is_empty() } else { g.rw[id].writer.is_none() };
+    if free {
+        if write {
+            g.rw[id].writer = Some(me);
+        } else {
+            g.rw[id].readers.push(me);
+        }
+    }
+    g.log(me, ev::TRY, ((3 + write as u64) << 32) | ((free as u64) << 31) | id as u64);
+    free
 }
 
 pub(crate) fn release_mutex(w: &Arc<World>, me: Tid, id: usize) {
